@@ -59,6 +59,8 @@ class Cog12(ExactSolver):
 
         if self.gamma >= 1:
             print("*** warning: gamma > 1 gives T < 0 ***")
+        if (self.gamma - 1) * self.geometry == 2:
+            raise ValueError("no solution for (gamma - 1)(k + 1) = 2")
         if self.beta < 1.0 or self.beta > 3.0:
             print("*** warning: beta lies outside range [1,3] ***")
         
